@@ -26,8 +26,10 @@ values, does not mutate the original, and replace() is equal; `==` on ALL ordere
 kind equals the reference equivalence and never raises; pickling (protocols 2 and highest) round-trips
 to an equal spec in both directions of `==`; every accepted member value is contained in the
 converted gym space and validates against the converted dm_env spec; every element of every finite
-converted space (Discrete, MultiDiscrete, integer/bool Box; capped, see `CAP`) validates against the
-original spec; get_valid_dtype equals the x64-off canonicalisation table.
+converted space (Discrete, MultiDiscrete, integer/bool Box) validates against the original spec —
+enumerated completely up to CAP elements per space (20 000 quick / 50 000 thorough); larger spaces are
+handled by the separate, explicitly non-exhaustive models actions-over-cap-*; get_valid_dtype equals
+the x64-off canonicalisation table.
 
 Oracle decisions (conservative where the statement is silent):
 * specs of different kinds are never compared; a nested spec's kind is its skeleton (child names and
@@ -50,6 +52,24 @@ Oracle decisions (conservative where the statement is silent):
 * replace(dtype=...) on bounded specs is only judged when the bounds are exactly representable in the
   new dtype, replace(shape=...) only when the stored bounds broadcast to the new shape (constructor
   preconditions).
+
+Findings on the pinned tree (each with its own signature; DESIGN §5 #8 and one new):
+  BoundedArray.__eq__:raises-on-array-bounds            bounds that are arrays with != 1 element (also empty)
+  MultiDiscreteArray.__eq__:broadcast-equal             [2] == [2,2] == [[2,2],[2,2]]
+  MultiDiscreteArray.__eq__:raises-on-shape-mismatch    [2,2] vs [2,3,4]; MMST().action_spec == Tetris().action_spec
+  Spec.__eq__:via-<one of the three above>              the same defects seen through a nested spec
+                                                        (Cleaner().observation_spec == itself raises)
+  jumanji_specs_to_gym_spaces:Array:raises-for-bool-or-unsigned-dtype
+                                                        Box(-inf, inf, dtype=bool|uint8) is rejected by gymnasium>=1.0
+A fix that compares shapes first and then np/jnp.array_equal on the bounds *broadcast to the shape*
+(and num_values shape + array_equal) makes every `__eq__` signature disappear; comparing raw bounds
+without broadcasting would instead trip BoundedArray.__eq__:unequal-on-broadcast-equal-bounds.
+
+Shown to fail (scratch copy, on top of such a fix): Array.__eq__ ignoring the name; DiscreteArray.__eq__
+ignoring the dtype; BoundedArray.validate using maximum.max(); Array.validate comparing ndim only;
+Spec.validate iterating over the spec's fields (accepts extra fields); MultiDiscreteArray.__reduce__
+dropping the dtype; dm_env DiscreteArray conversion dropping the dtype; gym Box high = max(maximum);
+get_valid_dtype without canonicalisation; Spec.replace dropping the name.
 """
 from __future__ import annotations
 
@@ -86,6 +106,7 @@ class Acc:
         self.vac: Dict[str, int] = {}
         self.extra: Dict[str, Any] = {}
         self.exhaustive = True
+        self.errors: List[str] = []
         self.t0 = time.time()
 
     def count(self, k: str, n: int = 1) -> None:
@@ -120,7 +141,19 @@ class Acc:
                "vacuity": self.vac, "exhaustive": self.exhaustive, "signatures": dict(self.by_sig),
                "task_s": round(time.time() - self.t0, 2)}
         out.update(self.extra)
+        if self.errors:
+            out["error"] = f"{len(self.errors)} spec(s) could not be processed; first: {self.errors[0]}"
         return out
+
+    def guard(self, what: str, fn: Any, *a: Any, **kw: Any) -> None:
+        """Run one spec's suite; an exception of the *checker* is an error of the run (exit 2), but the
+        other specs of the task are still processed."""
+        import traceback
+
+        try:
+            fn(*a, **kw)
+        except Exception:  # noqa: BLE001
+            self.errors.append(f"{what}: {traceback.format_exc(limit=6)[-1500:]}")
 
 
 def _exc(e: BaseException) -> str:
@@ -553,7 +586,7 @@ def replace_case(acc: Acc, r: Dict[str, Any], spec: Any, view: ref.View, attr: s
         return
     m = ref.view_mismatch(ref.view_from_spec(new), exp)
     if m:
-        what = "not-applied" if m[0] == attr else f"changes-{m[0] if view.kind != 'Spec' else 'other-child'}"
+        what = "not-applied" if m[0] == attr else f"changes-{m[0] if view.kind != 'Spec' or m[0] == 'name' else 'other-child'}"
         acc.violation(f"{view.kind}.replace({_attr_label(view, attr)}):{what}",
                       f"{uni.label(r)}.replace({attr}={val}): result has {m[1]}", rp)
     elif view.kind == "Spec":
@@ -712,8 +745,12 @@ def _leaf_suite(acc: Acc, r: Dict[str, Any], spec: Any, view: ref.View, key: ref
     check_pickle(acc, r, spec, view, key)
     if actions:
         check_actions(acc, r, spec, view, conv, cap)
-    if len(acc.samples) < 2:
-        acc.sample({"spec": uni.label(r), "generate_value": np.asarray(spec.generate_value()).tolist()})
+    if len(acc.samples) < 2 and view.size <= 8:
+        alpha = ref.leaf_alphabet(view, IDX_CAP)
+        tag, form, arr = alpha[len(alpha) // 3]
+        acc.sample({"spec": uni.label(r), "generate_value": np.asarray(spec.generate_value()).tolist(),
+                    "value": _value_tag(ref.value_recipe(tag, form, arr)), "reference_member": ref.member(view, ref.realise(form, arr))[0],
+                    "validate_accepts": run_validate(spec, ref.realise(form, arr))[0]})
 
 
 def _nested_suite(acc: Acc, r: Dict[str, Any], spec: Any, view: ref.View, key: ref.EqKey, values: bool = True) -> None:
@@ -744,7 +781,7 @@ def task_leaf(model: str, kind: str, tier: str, dtypes: Optional[List[str]] = No
     for r in recipes:
         _, spec, view, key = make_item(r)
         full = r.get("name", "") != "b"
-        _leaf_suite(acc, r, spec, view, key, cap, True, values=full, actions=r.get("name", "") == "")
+        acc.guard(uni.label(r), _leaf_suite, acc, r, spec, view, key, cap, True, values=full, actions=r.get("name", "") == "")
     return acc.result()
 
 
@@ -757,7 +794,7 @@ def task_nested(model: str, tier: str, part: int, parts: int) -> Dict[str, Any]:
         if i % parts != part:
             continue
         _, spec, view, key = make_item(r)
-        _nested_suite(acc, r, spec, view, key, values=i in keep)
+        acc.guard(uni.label(r), _nested_suite, acc, r, spec, view, key, values=i in keep)
     acc.sample({"spec": uni.label(recipes[part]), "generate_value": repr(uni.build_spec(recipes[part]).generate_value())[:200]})
     return acc.result()
 
@@ -796,7 +833,10 @@ def task_eq(model: str, kind: str, block: int = 0, blocks: int = 1) -> Dict[str,
         _, e, _ = _try_eq(a[1], b[1])
         acc.extra["nested_eq_different_fields"] = "raises " + _exc(e) if e is not None else "returns a bool"
         acc.count("nested_eq_different_fields_raises", int(e is not None))
-    acc.sample({"pair": [uni.label(items[0][0]), uni.label(items[-1][0])], "reference": ref.rel(items[0][3], items[-1][3])})
+    i, j = (7 * block + 3) % len(items), (len(items) - 1 - 11 * block) % len(items)
+    if ref.kind_key(items[i][2]) == ref.kind_key(items[j][2]):
+        acc.sample({"left": uni.label(items[i][0]), "right": uni.label(items[j][0]), "reference_equal": ref.rel(items[i][3], items[j][3]),
+                    "library_equal": str(_try_eq(items[i][1], items[j][1])[0])})
     return acc.result()
 
 
@@ -822,9 +862,9 @@ def task_env(model: str, family: str, ctors: List[Tuple[str, str]], tier: str) -
         for which, (r, spec, view, key) in _env_items(name, ctor):
             acc.count("env_specs")
             if view.kind == "Spec":
-                _nested_suite(acc, r, spec, view, key)
+                acc.guard(uni.label(r), _nested_suite, acc, r, spec, view, key)
             else:
-                _leaf_suite(acc, r, spec, view, key, cap, False, actions=(which == "action_spec"))
+                acc.guard(uni.label(r), _leaf_suite, acc, r, spec, view, key, cap, False, actions=(which == "action_spec"))
     return acc.result()
 
 
@@ -849,14 +889,15 @@ def task_actions_capped(model: str, tier: str, what: str) -> Dict[str, Any]:
         for kind in ref.LEAF_KINDS:
             for r in uni.LEAF_UNIVERSE[kind](names=("",)):
                 _, spec, view, _ = make_item(r)
-                check_actions(acc, r, spec, view, Conv(acc, r, spec, view, quiet=True), cap, capped_pass=True, budget=1024)
+                acc.guard(uni.label(r), check_actions, acc, r, spec, view, Conv(acc, r, spec, view, quiet=True), cap,
+                          capped_pass=True, budget=1024)
     else:
         for name, fam, ctor in uni.env_ctors(tier):
             r = {"t": "env", "ctor": ctor, "which": "action_spec", "path": []}
             _, spec, view, _ = make_item(r)
             if view.kind != "Spec":
-                check_actions(acc, r, spec, view, Conv(acc, r, spec, view, quiet=True), cap, capped_pass=True,
-                              budget=min(cap, 10_000))
+                acc.guard(uni.label(r), check_actions, acc, r, spec, view, Conv(acc, r, spec, view, quiet=True), cap,
+                          capped_pass=True, budget=min(cap, 10_000))
     return acc.result()
 
 
@@ -927,7 +968,10 @@ def build_tasks(tier: str) -> List[Tuple[str, str, Dict[str, Any]]]:
     for name, fam, ctor in uni.env_ctors(tier):
         by_fam.setdefault(fam, []).append((name, ctor))
     for fam, ctors in by_fam.items():
-        tasks.append((M, "task_env", dict(model=f"env-{fam}", family=fam, ctors=ctors, tier=tier)))
+        chunks = [ctors] if tier == "quick" else [ctors[i:i + 2] for i in range(0, len(ctors), 2)]
+        for ci, chunk in enumerate(chunks):
+            tasks.append((M, "task_env", dict(model=f"env-{fam}" + (f"-{ci}" if len(chunks) > 1 else ""), family=fam,
+                                              ctors=chunk, tier=tier)))
     tasks.append((M, "task_env_eq", dict(model="eq-env-specs", tier=tier)))
     for part in range(4):
         tasks.append((M, "task_nested", dict(model=f"nested-{part}", tier=tier, part=part, parts=4)))
